@@ -164,9 +164,13 @@ Fixpoint read_all {A} (rd : A -> res (list fullsample)) (l : list A) : res (list
   | x :: r => do o <- rd x; do rest <- read_all rd r; Ok (o :: rest)
   end.
 
-(* `fullSamples, err := GetFullSamplesForInterval(...); if len(fullSamples) == 0 { continue }; if err != nil {...}`:
-   the length test comes first, so an error return (nil slice) is taken for "No more samples" *)
+(* `fullSamples, err := GetFullSamplesForInterval(...); if err != nil { return err }; if len(fullSamples) == 0 { continue }`
+   (text after fix 8eb6c19: the error is returned; an empty interval is "No more samples") *)
 Definition fetch_or_skip (f : pfile) (tb : tables) (iv : N * N) : res (list fullsample) :=
+  fetch_interval f tb (fst iv) (snd iv).
+
+(* the pinned text tested the length first, so an error return (nil slice) was taken for "No more samples" *)
+Definition fetch_or_skip_pinned (f : pfile) (tb : tables) (iv : N * N) : res (list fullsample) :=
   match fetch_interval f tb (fst iv) (snd iv) with Err => Ok [] | r => r end.
 
 (* makeSingleTrackSegments, one track: the encoded fragment of every segment that got samples.
